@@ -20,9 +20,11 @@ from pathlib import Path
 VERIF = Path(__file__).resolve().parents[2]
 SPEC = VERIF / "spec"
 WORK = VERIF / ".work"
-EVID = VERIF / "evidence"
 REPLAYS = VERIF / "replays"
 REPO = Path(os.environ.get("JV_REPO", "/repo"))
+# evidence describes runs against /repo itself; a run against another checkout (a seeded change under
+# evaluation, JV_REPO=<worktree>) must not overwrite it
+EVID = VERIF / "evidence" if REPO.resolve() == Path("/repo") else WORK / "evidence-other-checkout"
 JAR = "/opt/veriftools/tla/tla2tools.jar:/opt/veriftools/tla/CommunityModules-deps.jar"
 
 
@@ -558,7 +560,7 @@ class Check:
             "wall_s": round(time.time() - self.t0, 2),
             "violations": len(self.violations),
         }
-        EVID.mkdir(exist_ok=True)
+        EVID.mkdir(parents=True, exist_ok=True)
         (EVID / f"{self.pid}.json").write_text(json.dumps(ev, indent=1, default=repr) + "\n")
         n = len(self.violations)
         if n:
